@@ -571,6 +571,10 @@ func harnessC03() {
 		r = wTimed(func() error { _, err := b.Dial(902); return err })
 		vAssert(!r.panicked && r.took <= 6*sec, "C03: a broker dial returns in bounded time without panic")
 		vAssert(r.err != nil, "C03: a broker dial nobody accepts returns an error")
+		// a second accept after the first one failed: the failure left the broker usable
+		r = wTimed(func() error { _, err := b.Accept(903); return err })
+		vAssert(!r.panicked && r.took <= 6*sec, "C03: a second broker accept returns in bounded time without panic")
+		vAssert(r.err != nil, "C03: a second broker accept nobody dials returns an error")
 	}
 	vCover("broker-ops-returned")
 
@@ -676,6 +680,13 @@ func harnessC04world() {
 	w := wSetup(o)
 	c, p := w.c, w.p
 	wBehave(w, behaviour, d)
+	if vChoice(2) == 1 {
+		// a Kill before anything was started (a deferred clean-up that ran early, CleanupClients over a managed client not
+		// yet started): there is nothing to kill, and it must not disarm the Kill that comes after the plugin was launched
+		vCover("kill-before-start")
+		r := wTimed(func() error { c.Kill(); return nil })
+		vAssert(!r.panicked && r.took <= sec, "C04: Kill with nothing to kill returns at once")
+	}
 	if vChoice(2) == 1 {
 		// a history in which the protocol client could not be built: the plugin started, then stopped answering
 		// (or crashed) before the host connected; Client() fails (net/rpc) or succeeds lazily (gRPC); then Kill
